@@ -205,6 +205,42 @@ def sys (mem0 : Mem) : Machine (AxlM × AxlOracle) Sys (AxlS × AxlM × AxlS) wh
     { br := next c s.br i.1 o.2.2, p := AxlMem.next c.nbTo s.p i.2 o.2.1, g := s.g.next (wideWr c) i.1 o.1 }
 
 end DownW
+/-! ### AXI-Lite down-converter, read path, over a narrow AXI-Lite byte memory -/
+namespace DownR
+
+variable (c : DownCfg)
+
+/-- Little-endian packing of the first `k` sub-words `f 0, f 1, …` (each reduced to `nbTo` bytes). -/
+def pack (f : Nat → Nat) : Nat → Nat
+  | 0 => 0
+  | k + 1 => pack f k + (f k % 256 ^ c.nbTo) * (256 ^ c.nbTo) ^ k
+
+/-- Narrow word `k` of the wide word containing address `a`. -/
+def subWord (m : Mem) (a k : Nat) : Nat := m.readWord c.nbTo (c.subAddr a k / c.nbTo)
+
+/-- Reference semantics of a wide read: its `ratio` narrow words, lowest address in the least significant lanes. -/
+def wideRd : RdFn Mem := fun m a => pack c (subWord c m a) c.ratio
+
+structure Sys where
+  br  : DownRState
+  p   : AxlMemState
+  g   : AxlGhost Mem
+  old : Nat            -- ghost: content of `r_data` when the current read started
+
+def sysOut (s : Sys) (i : AxlM × AxlOracle) : AxlS × AxlM × AxlS :=
+  let r := AxlMem.out s.p i.2
+  (toMaster c s.br i.1 r, toSlave c s.br i.1 r, r)
+
+def sys (mem0 : Mem) : Machine (AxlM × AxlOracle) Sys (AxlS × AxlM × AxlS) where
+  init := { br := init, p := AxlMem.init mem0, g := AxlGhost.init mem0, old := 0 }
+  out := sysOut c
+  next s i :=
+    let o := sysOut c s i
+    { br := next c s.br i.1 o.2.2, p := AxlMem.next c.nbTo s.p i.2 o.2.1, g := s.g.next (fun m _ _ _ => m) i.1 o.1
+      old := if s.br.st == .idle then s.br.rData else s.old }
+
+end DownR
+
 /-! ### AXI-Lite up-converter with an arbitrary wide partner and the observer of its master port -/
 namespace Up
 
@@ -316,6 +352,9 @@ def rsys : Machine (AxiM × AxlS) RSys (AxiS × AxlM) where
 def singleOutstanding (s : RSys) (i : AxiM × AxlS) : Prop :=
   (i.2.rvalid = true → s.rCnt < s.arCnt) ∧ (i.2.arready = true → s.arCnt = s.rCnt) ∧
   i.1.ar.len < 256 ∧ i.1.aw.len < 256
+
+instance (s : RSys) (i : AxiM × AxlS) : Decidable (singleOutstanding s i) := by
+  unfold singleOutstanding; infer_instance
 
 end Axi2Axl
 end Litex.Bridge
